@@ -750,7 +750,7 @@ func firstSegment(path string) string {
 
 type tagAcc struct {
 	name, title, descr string
-	http, rpc         []string
+	http, rpc          []string
 }
 
 // Expected computes the expected catalog skeleton of the model.
